@@ -7,7 +7,7 @@ import zlib
 from harness import core
 from harness.core import Z, zpairs
 from harness.main import Finding, Suite
-from harness.readers import call, judge_read, outcome_of
+from harness.readers import call, judge_read, keep_alive, outcome_of
 
 PROPERTY = "C02"
 PROPS_FILE = "Props/C02.v"
@@ -593,7 +593,7 @@ class VmdkSuite(Suite):
         fh, _ = build_image(case)
         out = {"open": None, "reqs": []}
         try:
-            v = VMDK(fh)
+            v = keep_alive(VMDK(fh))
         except Exception as e:  # noqa: BLE001
             import traceback
             where = ""
